@@ -751,6 +751,12 @@ def replay(ctx, rep):
         # special tuple: judged exactly as in the run (refusals, +-oo and the law's own value included)
         plan = N.leaf_plan(ex)
         env = {s: sympy.sympify(env_in[str(s)]) for a in ex.args for s in a.syms}
+        if rep.get("stream") == "curvilinear":
+            r = S.curvilinear_stream(item, ex, specs, plan, random.Random(0), pick_branch, fixed=(rep.get("system"), env))[0]
+            print("replay: vector arguments passed in", rep.get("system"), "components:", r.get("components_passed"))
+            print("replay: result", r.get("result_system"), r.get("result_components"), "-> Cartesian", r.get("observed"),
+                "; law at the Cartesian components:", r.get("closed_form_value"), "->", r.get("status"))
+            return 0 if r["status"] in ("ok", "skipped") else 1
         kwargs, _d = S.build_call(ex, env, random.Random(0), plan, vec_len=rep.get("vec_len"))
         r = S.judge(item, ex, specs, kwargs, env, pick_branch)
         shown = {k: r.get(k) for k in ("real", "observed", "error", "expected_kind", "closed_form_value", "law_value", "residual", "status")}
